@@ -15,11 +15,17 @@ mod exec_world;
 mod eng_cache;
 mod eng_load;
 mod eng_conc;
+mod eng_hr;
+mod eng_own;
 mod eng_bytes;
 mod eng_watch;
 mod srctree;
 mod eng_src;
 mod eng_dir;
+mod eng_cell;
+mod child;
+mod eng_hrlive;
+mod eng_idle;
 mod eng_iso;
 
 use common::*;
@@ -31,16 +37,22 @@ fn engines() -> Vec<Box<dyn Engine>> {
     v.push(Box::new(eng_cache::CacheEngine::default()));
     v.push(Box::new(eng_load::LoadEngine::default()));
     v.push(Box::new(eng_conc::ConcEngine::default()));
+    v.push(Box::new(eng_hr::HrEngine::default()));
+    v.push(Box::new(eng_own::OwnEngine::default()));
     v.push(Box::new(eng_bytes::BytesEngine::default()));
     v.push(Box::new(eng_watch::WatchEngine::default()));
     v.push(Box::new(eng_src::SrcEngine::default()));
     v.push(Box::new(eng_dir::DirEngine::default()));
+    v.push(Box::new(eng_cell::CellEngine::default()));
+    v.push(Box::new(eng_hrlive::HrLiveEngine));
+    v.push(Box::new(eng_idle::IdleEngine));
     v.push(Box::new(eng_iso::IsoEngine::default()));
     v
 }
 
 fn main() {
     let args: Vec<String> = std::env::args().collect();
+    child::maybe_run_child(&args);   // `amh --child <engine> <op line>` (engines hrlive, idle)
     if args.len() < 2 {
         eprintln!("usage: amh <engine> --seed S --cases N --tier quick|thorough --out DIR [--replay FILE]");
         std::process::exit(2);
